@@ -19,17 +19,18 @@
 (* process runs.  A declaration d of module m yields the derived value      *)
 (* Val(m, d): for a SCOPED declaration the value depends on the declaring   *)
 (* module (scope-mangled identifiers), for a global one only on d.  A memo  *)
-(* entry is found under Key(keymode, m, d).  The reference semantics is     *)
-(* keymode = "exact" (key = declaration + declaring module); the hazard     *)
-(* models "base" (key = declaration + base name of the module: modules with *)
-(* the same base name in different packages collide) and "decl" (key = the  *)
+(* entry is found under Key(km, m, d).  The reference semantics is the key  *)
+(* mode "exact" (key = declaration + declaring module); the hazard models   *)
+(* "base" (key = declaration + base name of the module: modules with the    *)
+(* same base name in different packages collide) and "decl" (key = the      *)
 (* declaration alone: every module with the same declaration collides) are  *)
-(* explored in the same run: they hold no invariant, TLC computes for every *)
-(* process history which outputs they would make stale, and these are the   *)
-(* histories the binding has to execute on the real compiler.               *)
+(* carried along in the same state (memo[w][km], names[w][km]): they hold   *)
+(* no invariant, TLC computes for every process history which outputs they  *)
+(* would make stale, and these are the histories the binding has to execute *)
+(* on the real compiler.                                                    *)
 (*                                                                          *)
 (* The environment (hash seed, job order, number of workers) is never read  *)
-(* by an action.  Invariants (keymode "exact", ALL interleavings): a job's  *)
+(* by an action.  Invariants (key mode "exact", ALL interleavings): a job's *)
 (* names do not depend on the history of the memo it ran on                 *)
 (* (MemoHistoryIndependent), a memo key determines its value (MemoSound),   *)
 (* the final outputs are the fresh ones = what a job computes in a new      *)
@@ -52,9 +53,9 @@ CONSTANTS Mods,        \* set of module ids
           KeyModes,    \* subset of {"exact", "base", "decl"}
           Dump
 
-VARIABLES order, seed, nw, keymode, queue, job, got, names, memo, hist, out, pc
-vars == <<order, seed, nw, keymode, queue, job, got, names, memo, hist, out, pc>>
-env == <<order, seed, nw, keymode>>
+VARIABLES order, seed, nw, queue, job, got, names, memo, hist, out, pc
+vars == <<order, seed, nw, queue, job, got, names, memo, hist, out, pc>>
+env == <<order, seed, nw>>
 
 Workers == 1..MaxW
 NoNames == [d \in {} |-> <<>>]
@@ -67,16 +68,17 @@ Key(km, m, d) == IF d \notin Scoped THEN <<d, "*">>
                  ELSE <<d, "*">>
 
 FreshNames(m) == [d \in Decls[m] |-> Val(m, d)]
-Fresh(m) == [src |-> m, deps |-> Deps[m], names |-> FreshNames(m)]   \* F: a function of the module's inputs only
-Empty == [src |-> "", deps |-> {}, names |-> NoNames]
-Partial == [src |-> "partial", deps |-> {}, names |-> NoNames]
+Fresh(m) == [src |-> m, deps |-> Deps[m], names |-> [km \in KeyModes |-> FreshNames(m)]]   \* F: a function of the module's inputs only
+NoNamesK == [km \in KeyModes |-> NoNames]
+Empty == [src |-> "", deps |-> {}, names |-> NoNamesK]
+Partial == [src |-> "partial", deps |-> {}, names |-> NoNamesK]
 
-Init == /\ order \in Orders /\ seed \in Seeds /\ nw \in NWorkers /\ keymode \in KeyModes
+Init == /\ order \in Orders /\ seed \in Seeds /\ nw \in NWorkers
         /\ queue = order
         /\ job = [w \in Workers |-> ""]
         /\ got = [w \in Workers |-> {}]            \* input files read so far by the running job
-        /\ names = [w \in Workers |-> NoNames]     \* derived names of the running job
-        /\ memo = [w \in Workers |-> {}]           \* process-wide memo: set of [k |-> key, v |-> value]
+        /\ names = [w \in Workers |-> NoNamesK]    \* derived names of the running job, per key mode
+        /\ memo = [w \in Workers |-> [km \in KeyModes |-> {}]]   \* process-wide memo: set of [k |-> key, v |-> value], per key mode
         /\ hist = [w \in Workers |-> <<>>]         \* jobs run by the process so far
         /\ out = [m \in Mods |-> Empty]
         /\ pc = [w \in Workers |-> "idle"]
@@ -84,7 +86,7 @@ Init == /\ order \in Orders /\ seed \in Seeds /\ nw \in NWorkers /\ keymode \in 
 Take(w) == /\ w <= nw /\ pc[w] = "idle" /\ queue # <<>>
            /\ job' = [job EXCEPT ![w] = Head(queue)] /\ queue' = Tail(queue)
            /\ hist' = [hist EXCEPT ![w] = Append(@, Head(queue))]
-           /\ got' = [got EXCEPT ![w] = {}] /\ names' = [names EXCEPT ![w] = NoNames]
+           /\ got' = [got EXCEPT ![w] = {}] /\ names' = [names EXCEPT ![w] = NoNamesK]
            /\ pc' = [pc EXCEPT ![w] = "read"]
            /\ UNCHANGED <<env, out, memo>>
 Inputs(m) == {m} \cup Deps[m]
@@ -94,14 +96,14 @@ ReadOne(w) == /\ pc[w] = "read"
               /\ UNCHANGED <<env, queue, job, names, memo, hist, out>>
 (* the job looks every declaration up in the memo of its process: a hit returns what an EARLIER job *)
 (* of this process stored under the key, a miss computes the value and stores it for later jobs      *)
-Hit(w, k) == \E e \in memo[w] : e.k = k
-Stored(w, k) == (CHOOSE e \in memo[w] : e.k = k).v
+Hit(w, km, k) == \E e \in memo[w][km] : e.k = k
+Stored(w, km, k) == (CHOOSE e \in memo[w][km] : e.k = k).v
 Memo(w) == /\ pc[w] = "memo"
            /\ LET m == job[w] IN
-                /\ names' = [names EXCEPT ![w] = [d \in Decls[m] |->
-                                IF Hit(w, Key(keymode, m, d)) THEN Stored(w, Key(keymode, m, d)) ELSE Val(m, d)]]
-                /\ memo' = [memo EXCEPT ![w] = @ \cup {[k |-> Key(keymode, m, d), v |-> Val(m, d)] :
-                                                        d \in {x \in Decls[m] : ~Hit(w, Key(keymode, m, x))}}]
+                /\ names' = [names EXCEPT ![w] = [km \in KeyModes |-> [d \in Decls[m] |->
+                                IF Hit(w, km, Key(km, m, d)) THEN Stored(w, km, Key(km, m, d)) ELSE Val(m, d)]]]
+                /\ memo' = [memo EXCEPT ![w] = [km \in KeyModes |-> @[km] \cup
+                                {[k |-> Key(km, m, d), v |-> Val(m, d)] : d \in {x \in Decls[m] : ~Hit(w, km, Key(km, m, x))}}]]
            /\ pc' = [pc EXCEPT ![w] = "trunc"]
            /\ UNCHANGED <<env, queue, job, got, hist, out>>
 Truncate(w) == /\ pc[w] = "trunc"
@@ -121,22 +123,22 @@ Next == DoTake \/ DoRead \/ DoMemo \/ DoTrunc \/ DoWrite
 Spec == Init /\ [][Next]_vars
 
 Done == queue = <<>> /\ \A w \in Workers : pc[w] = "idle"
-Stale == {m \in Mods : out[m] # Fresh(m)}
+StaleK(km) == {m \in Mods : out[m].src # m \/ out[m].deps # Deps[m] \/ out[m].names[km] # FreshNames(m)}
 (* whatever the schedule, order and seed: the final outputs are the fresh ones *)
-ScheduleIndependent == (Done /\ keymode = "exact") => Stale = {}
+ScheduleIndependent == Done => StaleK("exact") = {}
 (* no job is taken twice, no two workers write the same output *)
 NoSharedOutput == \A w1, w2 \in Workers : (w1 # w2 /\ job[w1] # "") => job[w1] # job[w2]
 (* the names a job got from the memo are the ones it computes on an empty memo, whatever ran before it *)
-MemoHistoryIndependent == keymode = "exact" =>
-    \A w \in Workers : pc[w] \in {"trunc", "write"} => names[w] = FreshNames(job[w])
+MemoHistoryIndependent == \A w \in Workers : pc[w] \in {"trunc", "write"} => names[w]["exact"] = FreshNames(job[w])
 (* a key determines its value: every entry is right for EVERY (module, declaration) that maps to its key *)
-MemoSound == keymode = "exact" =>
-    \A w \in Workers : \A e \in memo[w] : \A m \in Mods : \A d \in Decls[m] :
-        Key(keymode, m, d) = e.k => e.v = Val(m, d)
-(* memos are private to their process: what one process stored is never visible in another one *)
-MemoPrivate == \A w \in Workers : \A e \in memo[w] : \E i \in 1..Len(hist[w]) : \E d \in Decls[hist[w][i]] :
-                   e = [k |-> Key(keymode, hist[w][i], d), v |-> Val(hist[w][i], d)]
-(* the hazard models do make outputs stale in some history (the model can express the defect class) *)
-Publish == (Dump /\ Done) => PrintT("@@" \o ToJson([order |-> order, seed |-> seed, nworkers |-> nw, keymode |-> keymode,
-                                                     hist |-> hist, stale |-> Stale]))
+MemoSound == \A w \in Workers : \A e \in memo[w]["exact"] : \A m \in Mods : \A d \in Decls[m] :
+                 Key("exact", m, d) = e.k => e.v = Val(m, d)
+(* memos are private to their process: every entry was stored by a job of this process *)
+MemoPrivate == \A w \in Workers : \A km \in KeyModes : \A e \in memo[w][km] :
+                   \E i \in 1..Len(hist[w]) : \E d \in Decls[hist[w][i]] :
+                       e = [k |-> Key(km, hist[w][i], d), v |-> Val(hist[w][i], d)]
+(* every final state = one environment class with its process histories; stale[km] = the outputs a memo keyed *)
+(* like hazard model km would get wrong in this history (the binding must execute histories that cover them)    *)
+Publish == (Dump /\ Done) => PrintT("@@" \o ToJson([order |-> order, seed |-> seed, nworkers |-> nw, hist |-> hist,
+                                                     stale |-> [km \in KeyModes |-> StaleK(km)]]))
 =============================================================================
